@@ -21,6 +21,12 @@ type c04One struct {
 	Forever bool   // forgery on every attempt (else the authentic reply follows on attempt 2)
 	Code    int    // completion code carried by the forged message (catalogue items only)
 	Seed    int64
+	// Pre is what the session has been through before the forgery arrives: "" nothing;
+	// "busy-then-cancel": the first attempt is answered by an authentic Node Busy, the
+	// forgery answers the second attempt and the caller's context ends at that moment;
+	// "failed-close": a Close whose request never reached the BMC (the session is still
+	// alive there) precedes the command
+	Pre string `json:",omitempty"`
 }
 
 type c04Batch struct {
@@ -108,6 +114,13 @@ func c04Exec(run *ev.Run, c ev.Case) {
 					c04Run(run, c04One{Suite: b.Suite, Cmd: b.Cmd, Kind: k, Forever: forever, Seed: b.Seed})
 				}
 			}
+			if b.Cmd != "close" {
+				for _, k := range c04CodeKinds {
+					c04Run(run, c04One{Suite: b.Suite, Cmd: b.Cmd, Kind: k, Forever: true, Seed: b.Seed, Pre: "busy-then-cancel"})
+					c04Run(run, c04One{Suite: b.Suite, Cmd: b.Cmd, Kind: k, Forever: true, Seed: b.Seed, Pre: "failed-close"})
+					c04Run(run, c04One{Suite: b.Suite, Cmd: b.Cmd, Kind: k, Forever: false, Seed: b.Seed, Pre: "failed-close"})
+				}
+			}
 		case b.What == "codes":
 			for _, k := range c04CodeKinds {
 				for code := 1; code < 256; code++ {
@@ -172,13 +185,45 @@ func c04Run(run *ev.Run, o c04One) {
 		}
 		pcancel()
 	}
+	if o.Pre == "failed-close" {
+		// the Close Session request is lost on its way to the BMC, so Close fails and the BMC keeps the session
+		e.PreFilter = func(n int, req []byte) []byte { return nil }
+		pc, pcancel := e.LimitCtx(3)
+		cerr := sess.Close(pc)
+		pcancel()
+		e.PreFilter = nil
+		if cerr == nil {
+			run.Violation("C04:close-succeeded-without-response", "Close reported success although its request never reached the BMC", cs, nil)
+			return
+		}
+	}
 	attempt, authenticDelivered, forgedDelivered := 0, 0, 0
 	skip := false
 	var forgedBytes []byte
+	var cancelCaller context.CancelFunc
 	e.Filter = func(n int, req, reply []byte) ([]byte, error) {
 		attempt++
+		if reply == nil && o.Cmd != "close" && e.BMC.Sess != nil {
+			// the BMC did not answer this request (it may not even have accepted it); someone who
+			// can guess the command in flight does not need its answer to inject a datagram
+			op := map[string][2]byte{"guid": {6, 0x37}, "devid": {6, 0x01}, "chassis": {0, 0x02}}[o.Cmd]
+			reply = e.BMC.Sess.Wrap(refbmc.BuildRsp(0x81, op[0]+1, 0, 0x20, 1, 0, op[1], 0, authBody), refbmc.WrapOpts{})
+			if !(attempt == 1 || o.Forever) {
+				return nil, nil
+			}
+		}
 		if reply == nil {
 			return nil, nil
+		}
+		if o.Pre == "busy-then-cancel" {
+			if attempt == 1 {
+				// the BMC is momentarily busy: an authentic reply, which the library retries
+				last := e.BMC.Last()
+				return e.BMC.Sess.Wrap(refbmc.RespMsg(last, 0xc0, nil), refbmc.WrapOpts{}), nil
+			}
+			if cancelCaller != nil {
+				cancelCaller()
+			}
 		}
 		if attempt == 1 || o.Forever {
 			f, ok := c04Forge(o, e.BMC, reply, forgedBody, r)
@@ -196,6 +241,7 @@ func c04Run(run *ev.Run, o c04One) {
 	}
 	cctx, ccancel := e.LimitCtx(3)
 	defer ccancel()
+	cancelCaller = ccancel
 	var code ipmi.CompletionCode
 	var value []byte
 	pv, stk := safe(func() {
@@ -245,6 +291,9 @@ func c04Run(run *ev.Run, o c04One) {
 	}
 	run.Eval(1)
 	desc := fmt.Sprintf("suite %v cmd %s forgery %s/%d code %#x forever=%v caps-first=%v", su, o.Cmd, o.Kind, o.Arg, o.Code, o.Forever, capsFirst)
+	if o.Pre != "" {
+		desc += " after " + o.Pre
+	}
 	if pv != nil {
 		run.Violation("C04:panic:"+panicSite(stk), fmt.Sprintf("%s: panic %v\n%s", desc, pv, trimStack(stk)), cs, nil)
 		return
@@ -305,6 +354,11 @@ func c04Forge(o c04One, b *refbmc.BMC, auth []byte, forgedBody []byte, r interfa
 	last := b.Last()
 	if se == nil || last == nil {
 		return nil, false
+	}
+	if last.Problem != "" || !last.Accepted {
+		// the BMC could not make sense of the request; the forger answers the command it knows to be in flight
+		op := map[string][2]byte{"guid": {6, 0x37}, "devid": {6, 0x01}, "chassis": {0, 0x02}, "close": {6, 0x3c}}[o.Cmd]
+		last.RqAddr, last.RsAddr, last.NetFn, last.Cmd, last.RqSeq, last.RqLUN, last.RsLUN = 0x81, 0x20, op[0], op[1], 1, 0, 0
 	}
 	msg := refbmc.RespMsg(last, byte(o.Code), forgedBody)
 	_, il := refbmc.IntegFor(se.Suite.Integ)
